@@ -229,9 +229,9 @@ package service
 //@   trace[C06,probe-status] each service.(*streamHandler).absorbProbe satisfies $arg3 == evres("service.streamHandler.authenticate", 2).Status && result == evres("service.streamHandler.authenticate", 2)
 //@   trace[C06,no-close-of-probe] never transport.StreamConn.Close* when evres("service.streamHandler.authenticate", 2) != nil
 //@   trace[C06,deadline-kept-for-probe] exactly 1 transport.StreamConn.SetReadDeadline when evres("service.streamHandler.authenticate", 2) != nil
-//@   trace[C15,authenticated-reported-once] exactly 1 service.TCPConnMetrics.AddAuthenticated when evres("service.streamHandler.authenticate", 2) == nil
-//@   trace[C15,unauthenticated-not-reported] never service.TCPConnMetrics.AddAuthenticated when evres("service.streamHandler.authenticate", 2) != nil
-//@   trace[C15,authenticated-id] each service.TCPConnMetrics.AddAuthenticated satisfies $arg0 == evres("service.streamHandler.authenticate", 0)
+//@   trace[C15,C17,authenticated-reported-once] exactly 1 service.TCPConnMetrics.AddAuthenticated when evres("service.streamHandler.authenticate", 2) == nil
+//@   trace[C15,C17,unauthenticated-not-reported] never service.TCPConnMetrics.AddAuthenticated when evres("service.streamHandler.authenticate", 2) != nil
+//@   trace[C15,C17,authenticated-id] each service.TCPConnMetrics.AddAuthenticated satisfies $arg0 == evres("service.streamHandler.authenticate", 0)
 //@   trace[C06,bad-address-drained] each service.getProxyRequest satisfies $res1 != nil ==> evcount("io.Copy") == 1 && result != nil && result.Status == "ERR_READ_ADDRESS"
 //@   trace[C15,relay-status-returned] each service.proxyConnection satisfies result == $res0
 //@   trace[C15,auth-failure-status] each service.streamHandler.authenticate satisfies $res2 != nil ==> result == $res2
